@@ -60,12 +60,12 @@ func genCase(t *rapid.T) Case {
 	inst := func(l string) int { return rapid.IntRange(0, c.NInst-1).Draw(t, l) }
 	if rapid.IntRange(0, 4).Draw(t, "startLeader") != 0 {
 		j := inst("l0")
-		c.Ops = append(c.Ops, Op{K: "leader", J: j}, Op{K: "alloc", I: j, N: rapid.SampledFrom(counts).Draw(t, "n0")})
+		c.Ops = append(c.Ops, Op{K: "leader", J: j}, Op{K: "alloc", I: j, N: vkit.PickU(t, counts, "n0")})
 	}
 	for len(c.Ops) < n {
-		switch rapid.IntRange(0, 11).Draw(t, "kind") {
+		switch vkit.Uni(t, 12, "kind") {
 		case 0, 1, 2:
-			c.Ops = append(c.Ops, Op{K: "alloc", I: inst("i"), N: rapid.SampledFrom(counts).Draw(t, "n")})
+			c.Ops = append(c.Ops, Op{K: "alloc", I: inst("i"), N: vkit.PickU(t, counts, "n")})
 		case 3:
 			c.Ops = append(c.Ops, Op{K: "rebase", I: inst("i")})
 		case 4, 5, 6:
@@ -73,24 +73,24 @@ func genCase(t *rapid.T) Case {
 			j := rapid.IntRange(-1, c.NInst).Draw(t, "leader") // -1 drop, NInst = foreign value
 			c.Ops = append(c.Ops, Op{K: "leader", J: j})
 			if j >= 0 && j < c.NInst {
-				c.Ops = append(c.Ops, Op{K: "alloc", I: j, N: rapid.SampledFrom(counts).Draw(t, "n")})
+				c.Ops = append(c.Ops, Op{K: "alloc", I: j, N: vkit.PickU(t, counts, "n")})
 			}
 		case 7:
 			c.Ops = append(c.Ops, Op{K: "crash", I: inst("i")})
 		case 8:
-			c.Ops = append(c.Ops, Op{K: "fail", I: inst("i"), Fail: rapid.SampledFrom([]string{"before", "lostack"}).Draw(t, "fk")})
+			c.Ops = append(c.Ops, Op{K: "fail", I: inst("i"), Fail: vkit.PickU(t, []string{"before", "lostack"}, "fk")})
 		case 9:
-			c.Ops = append(c.Ops, Op{K: "conc", I: inst("i"), J: rapid.IntRange(2, 6).Draw(t, "g"), N: rapid.SampledFrom([]int{1, 50, 400, 1100}).Draw(t, "n")})
+			c.Ops = append(c.Ops, Op{K: "conc", I: inst("i"), J: rapid.IntRange(2, 6).Draw(t, "g"), N: vkit.PickU(t, []int{1, 50, 400, 1100}, "n")})
 		default:
 			i := inst("i")
 			j := inst("j")
-			op := Op{K: "race", I: i, J: j, N: rapid.SampledFrom([]int{1, 2, 1001}).Draw(t, "n"), L: -2,
+			op := Op{K: "race", I: i, J: j, N: vkit.PickU(t, []int{1, 2, 1001}, "n"), L: -2,
 				Sched: rapid.SliceOfN(rapid.IntRange(0, 5), 0, 10).Draw(t, "sched")}
 			if rapid.IntRange(0, 2).Draw(t, "withLeader") == 0 {
 				op.L = rapid.IntRange(-1, c.NInst-1).Draw(t, "l")
 			}
 			if rapid.IntRange(0, 3).Draw(t, "raceFail") == 0 {
-				op.Fail = rapid.SampledFrom([]string{"before", "lostack"}).Draw(t, "rfk")
+				op.Fail = vkit.PickU(t, []string{"before", "lostack"}, "rfk")
 			}
 			c.Ops = append(c.Ops, op)
 		}
